@@ -728,8 +728,7 @@ func runAuthMITM(c *simkit.Choice, r *simkit.Rec) {
 	pki.Load()
 	suiteList := [][]uint16{{gmSuites[0], gmSuites[1]}, {gmSuites[1], gmSuites[0]}, {gmSuites[0]}, {gmSuites[1]}}[c.Choose(4, simkit.LScen)]
 	clientAuth := c.Bool(1, 2, simkit.LScen)
-	kinds := []string{"T0-honest", "T1-wrong-name", "T2-untrusted-root", "T3-client-cert-untrusted", "T4-no-client-cert", "T5-client-cert-if-given-untrusted", "T6-ip-literal-name",
-		"M-flip-byte", "M-replace-from-session1", "M-drop", "M-duplicate", "M-swap", "M-suite-strip", "M-serverhello-suite", "M-cert-substitute", "M7-refragment(legal)", "M7-warning-alert"}
+	kinds := []string{"M-flip-byte", "M-replace-from-session1", "M-drop", "M-duplicate", "M-swap", "M-suite-strip", "M-serverhello-suite", "M-cert-substitute", "M7-refragment(legal)", "M7-warning-alert"}
 	rw := &mitmRewrite{Kind: kinds[c.Weighted([]int{5, 4, 2, 2, 2, 2, 2, 3, 2, 1}, simkit.LFault)]}
 	rw.Dir = c.Choose(2, simkit.LFault)
 	maxIdx := 1 // c2s before CCS: CH, [Cert], CKX, [CV]
